@@ -15,6 +15,7 @@ import (
 // enters node R's hashgraph BEFORE the events that make R create block N; the insertion positions
 // are arranged around a multiple of 100 (Bootstrap's batch size). All events are honest events.
 // After a clean shutdown R is reopened and bootstrapped; the ordinary recovery oracle runs.
+// Regression input of fix d90db55 (before it, the re-delivered blocks were renumbered).
 
 func countEvents(nd *hx.Node) int {
 	n := 0
@@ -187,7 +188,13 @@ func runByz(out *bufio.Writer, seed int64, hid int, tmp string, cache int) {
 		h.pull(h.nodes[i], h.nodes[j], -1, false)
 	}
 	fmt.Fprintf(out, "# byz: R delivered %d blocks before shutdown (last index %d)\n", len(b.delivKeys), R.Store.LastBlockIndex())
+	before := w.Violations
 	h.cleanShutdown(b)
 	h.finalChecks()
+	if w.Violations == before {
+		// regression input of fix d90db55: the scenario was staged and the re-delivery is identical
+		h.actions["byz-redelivery-identical"] = 1
+		fmt.Fprintf(out, "# byz: re-delivery after the clean shutdown identical (%d blocks)\n", len(b.delivKeys))
+	}
 	h.printStats()
 }
